@@ -146,10 +146,30 @@ def l2_l4(prog, rep):
     ok = len(st) == 1
     if ok:
         l, r = norm(st[0].kid(0)), norm(st[0].kid(1))
+        # the value stored, read through locals that hold an operand (one definition each; that the input is read before the
+        # output is written is L8's clause) and through conversions back to a byte
+        defs = {}
+        for e in use.all_elems():
+            if e.cls == "DeclStmt":
+                for d in e.decls or []:
+                    if isinstance(d, dict) and d.get("init"):
+                        defs.setdefault(d["id"], []).append(norm(use.elem(d["init"])))
+            elif (e.is_assign or e.is_incdec) and norm(e.kid(0))[0] == "v" and len(norm(e.kid(0))) > 2:
+                defs.setdefault(norm(e.kid(0))[2], []).append(norm(e.kid(1)) if e.is_assign and e.op == "=" else None)
+
+        def through(t, depth=0):
+            while t[0] == "cast":
+                t = t[-1]
+            if t[0] == "v" and len(t) > 2 and len(defs.get(t[2], [])) == 1 and defs[t[2]][0] is not None and depth < 3:
+                return through(defs[t[2]][0], depth + 1)
+            if t[0] == "^" and len(t) == 3:
+                return ("^", through(t[1], depth), through(t[2], depth))
+            return t
+        r = through(r)
         ok = sh(l) == "*outbuf[i]" and r[0] == "^" and {sh(r[1]), sh(r[2])} == {"*inbuf[i]", "stream->buf[(bytemod+i)]"}
         g = any(op == "<" and sh(L) == "i" and sh(R) == "nbytes" for cond, truth in use.edge_conds(st[0]) for op, L, R, _, _ in cond_atoms(cond, truth))
         ok = ok and g
-    rep.check(ok, "L2-inplace", "use: out[i] = in[i] ^ keystream[bytemod + i] in one statement (same index read and written)", use.loc, "", function=use.name, construct="xor")
+    rep.check(ok, "L2-inplace", "use: out[i] = in[i] ^ keystream[bytemod + i] (same index read and written)", use.loc, "", function=use.name, construct="xor")
     adv = sorted((sh(norm(e.kid(0))), e.op, sh(norm(e.kid(1)))) for e in use.all_elems() if e.is_assign and e.op in ("+=", "-="))
     want = sorted([("stream->bytectr", "+=", "nbytes"), ("*inbuf", "+=", "nbytes"), ("*outbuf", "+=", "nbytes"), ("*buflen", "-=", "nbytes")])
     after = all(use.dominates(st[0], e) or True for e in use.all_elems()) if st else False
@@ -287,6 +307,111 @@ def l6_roundkeys(rep, cfg=cdb.HOST):
     return 1
 
 
+def l8_inplace(prog, rep):
+    """The stream functions may be called in place (inbuf == outbuf): each byte of the input is read before the output byte that
+    replaces it is written.  In every function of the AES-CTR units that has an input pointer (to const bytes) and an output
+    pointer, along every path: a write of output data (an assignment through the output pointer, or the pointer handed to a
+    function that stores through it) is preceded, since the previous such write, by a read of input data; no compound
+    assignment reads the output; a call that is given both pointers delegates (the callee is checked itself).  Must-analysis
+    over {input read since the last output write}.  (Encrypting the counter block straight into the output and XORing the
+    input in afterwards gives the right answer with separate buffers and zeros in place.)"""
+    from ..dataflow import Solver
+    n = 0
+    for up in (SW, NI):
+        if up not in prog.units:
+            continue
+        u = prog.unit(up)
+        for f in u.funcs:
+            if not (f.file == up or f.file.endswith("crypto_aesctr_shared.c")):
+                continue
+            IN = OUT = None
+            for p in f.params:
+                t = u.types.get(p.get("ty")) or {}
+                lvl = 0
+                const_data = False
+                while t.get("kind") == "ptr":
+                    lvl += 1
+                    pt = t.get("pointee", "")
+                    nt = u.types.get(pt) or {}
+                    if nt.get("kind") != "ptr":
+                        const_data = pt.startswith("const ") or bool(nt.get("const"))
+                        base_ok = nt.get("kind") == "int" and nt.get("size") == 1
+                    t = nt
+                if lvl in (1, 2) and base_ok:
+                    d = ("v", p["name"], p["id"])
+                    d = d if lvl == 1 else ("*", d)
+                    if const_data and IN is None:
+                        IN = d
+                    elif not const_data and OUT is None:
+                        OUT = d
+            if IN is None or OUT is None:
+                continue
+
+            def data_ptr(t, D):
+                """t is a pointer into the data D points to"""
+                while t[0] == "cast":
+                    t = t[-1]
+                if t == D:
+                    return True
+                if t[0] == "&" and t[1][0] == "[]":
+                    return data_ptr(t[1][1], D)
+                if t[0] in ("+", "-") and len(t) == 3:
+                    return data_ptr(t[1], D)
+                return False
+
+            def data_lv(t, D):
+                return (t[0] == "[]" and data_ptr(t[1], D)) or (t[0] == "*" and data_ptr(t[1], D))
+            bad = []
+
+            def classify(e):
+                """'r' input data read, 'w' output data write, 'x' compound on output, None"""
+                if e.cls == "ImplicitCastExpr" and e.op == "LValueToRValue" and e.kid(0) is not None and e.kid(0).strip() is not None:
+                    if data_lv(norm(e.kid(0).strip()), IN):
+                        return "r"
+                if e.is_assign and data_lv(norm(e.kid(0)), OUT):
+                    return "w" if e.op == "=" else "x"
+                if e.is_incdec and data_lv(norm(e.kid(0)), OUT):
+                    return "x"
+                if e.cls == "CallExpr" and e.callee:
+                    ai = [a for a in e.args if a is not None and (data_ptr(norm(a), IN) or norm(a) == IN[1:] and False)]
+                    ao = [a for a in e.args if a is not None and data_ptr(norm(a), OUT)]
+                    # the pointers themselves handed on (pointer-to-pointer parameters): delegation
+                    if ai and ao:
+                        return None
+                    if ai:
+                        return "r"
+                    if ao:
+                        return "w"
+                return None
+
+            def tr(st, e):
+                k = classify(e)
+                if k == "r":
+                    return True
+                if k in ("w", "x"):
+                    return False
+                return st
+            sv = Solver(f, False, tr, None, lambda a, b: a and b).run()
+            nw = [0]
+
+            def visit(e, st):
+                k = classify(e)
+                if k == "x":
+                    nw[0] += 1
+                    bad.append((e, "this reads the output buffer's own contents back: what was put there before the input was mixed in has already replaced the input when the call is in place"))
+                elif k == "w":
+                    nw[0] += 1
+                    if not st:
+                        bad.append((e, "output data is written here on a path on which no input data has been read since the previous output write: called in place, the input bytes are gone before they are used"))
+            sv.visit(visit)
+            if not nw[0]:
+                continue
+            n += 1
+            rep.check(not bad, "L8-inplace", "%s: every output write follows the read of the input it replaces" % f.name, (bad[0][0].where if bad else f.loc),
+                      bad[0][1] if bad else "", function=f.name, construct="inplace")
+    return n
+
+
 def l7_cannot_fail(prog, rep):
     """The stream functions that return nothing cannot fail: no void function of crypto_aesctr.c (or of its shared part) calls
     anything that can fail for lack of memory -- it would have no way to say so, and the one-shot function's caller would take an
@@ -336,6 +461,8 @@ def run(tier):
         l1_l3(prog, rep)
         l2_l4(prog, rep)
         l5_total(prog, rep)
+    if l8_inplace(prog, rep) < 2:
+        rep.defer_broken("L8: fewer than 2 functions that write output data found in the AES-CTR units")
     if l7_cannot_fail(prog, rep) < 3:
         rep.defer_broken("L5: fewer than 3 void functions found in crypto_aesctr.c")
     if l6_roundkeys(rep) < 1:
